@@ -131,6 +131,27 @@ pub fn pack_c11<P: SimPrefix, T: SimVal>(
                 }
                 // one level of left/right from here (virtual views have their own code path)
                 check_sides(ctx, &v, &t.ents, canonical, cap)?;
+                // a clone of the view is the same view
+                let (cp, cv, ce) = ctx.obs("C11", "TrieView::clone", || {
+                    let c = v.clone();
+                    (c.prefix().raw(), c.value().map(|x| x.snap()), view_ents(&c, cap))
+                })?;
+                chk!(ctx, "C11", cp == vp && cv == val && ce == ents, "view.clone", "clone of view_at({q}): prefix {cp} value {:?} entries {:?}; original: prefix {vp} value {:?} entries {:?}", cv, ce, val, ents);
+                if ctx.is("C11") && (mix64(salt ^ q.bits as u64) % 3 == 0) {
+                    let jj = (mix64(salt ^ q.len as u64) % (expo.len() as u64 + 1)) as usize;
+                    let r = ctx.obs("C11", "view.iter(consumers)", || crate::packs::consumer_checks(|| v.iter(), |(p, x)| (p.raw(), x.snap()), &expo.iter().map(|e| (e.raw, e.v)).collect::<Vec<_>>(), jj, 1))?;
+                    if let Err((m, d)) = r {
+                        chk!(ctx, "C11", false, format!("consumer:view.iter:{m}"), "view_at({q}).iter(): {d}");
+                    }
+                    let r = ctx.obs("C11", "view.keys(consumers)", || crate::packs::consumer_checks(|| v.keys(), |p| p.raw(), &expo.iter().map(|e| e.raw).collect::<Vec<_>>(), jj, 1))?;
+                    if let Err((m, d)) = r {
+                        chk!(ctx, "C11", false, format!("consumer:view.keys:{m}"), "view_at({q}).keys(): {d}");
+                    }
+                    let r = ctx.obs("C11", "view.values(consumers)", || crate::packs::consumer_checks(|| v.values(), |x| x.snap(), &expo.iter().map(|e| e.v).collect::<Vec<_>>(), jj, 1))?;
+                    if let Err((m, d)) = r {
+                        chk!(ctx, "C11", false, format!("consumer:view.values:{m}"), "view_at({q}).values(): {d}");
+                    }
+                }
                 if q.len > 0 && (mix64(salt ^ q.bits as u64 ^ q.len as u64) % 4 == 0) {
                     for q2 in [q, q.parent().unwrap_or(q), if q.len < P::WIDTH { q.child(true) } else { q }, Key::ZERO] {
                         check_view_at_from(ctx, &v, q, &t.ents, q2, salt, cap)?;
